@@ -260,6 +260,12 @@ func (x *decExec) guard(what string, f func()) (panicked bool) {
 	return false
 }
 
+func scribble(p []byte) {
+	for i := range p {
+		p[i] = 0xee
+	}
+}
+
 // state of the DecoderBuffer before a call
 type bufState struct {
 	lenData, r, allLen int
@@ -481,6 +487,7 @@ func (x *decExec) doWrite(op DOp) {
 		if !bytesEqual(p, op.Data) {
 			x.report("C05", "Write modified the caller's slice")
 		}
+		scribble(p) // the caller reuses its slice
 		x.relations("Write", st, false)
 		return
 	}
@@ -493,6 +500,7 @@ func (x *decExec) doWrite(op DOp) {
 		x.dead = true
 		return
 	}
+	scribble(p) // the caller reuses its slice
 	x.all = append(x.all, op.Data[:n]...)
 	switch err {
 	case nil:
@@ -592,6 +600,11 @@ func (x *decExec) doWriteBlock(op DOp) {
 	x.nBlocks++
 	if !seqsEqual(seqs, op.Seqs) || !bytesEqual(lits, op.Lits) {
 		x.report("C05", "%s modified the caller's block", what)
+	}
+	// the caller reuses its block
+	scribble(lits)
+	for i := range seqs {
+		seqs[i] = lz.Seq{LitLen: 0xeeeeeeee, MatchLen: 0xeeeeeeee, Offset: 0xeeeeeeee}
 	}
 	if k < 0 || k > len(op.Seqs) || l < 0 || l > len(op.Lits) {
 		x.reportAll([]string{"C05", "C17"}, "%s returned k=%d, l=%d for %d sequences, %d literals", what, k, l, len(op.Seqs), len(op.Lits))
